@@ -92,6 +92,11 @@ def s1_loop_table(ctx):
         ok = ok or (len(ws) == 1 and ws[0].value[0] == 'sub' and ws[0].value[2] == ('str', 'target_allocations'))
         # a statistics record object instead of a dict: the field of the very object handed to every rebalance call
         ok = ok or (len(ws) == 1 and ws[0].value[0] == 'attr' and ws[0].value[2] == 'target_allocations' and len(set(stats_args)) == 1 and ws[0].value[1] == stats_args[0])
+        if not ok and stats_args and any(a_ is not None and a_[0] != 'dict' for a_ in stats_args):
+            # the statistics travel as an object of their own (a record, a recorder with methods): how what it collected comes back is not read here
+            ctx.undecided('C14.S5', 'target_allocations is the list the rebalances recorded into', ws[0].site if ws else ctx.fn(RUN).site(),
+                          'stats handed over as %s' % fmt(stats_args[0])[:80])
+            continue
         ctx.require(ok, 'C14.S5', 'target_allocations is the list the rebalances recorded into', ws[0].site if ws else ctx.fn(RUN).site(), [fmt(w.value)[:80] for w in ws],
                     key='C14.S5|target-allocations')
 
